@@ -4,4 +4,6 @@
 
 pub mod runner;
 pub mod util;
+pub mod lex;
+pub mod sqlite;
 pub mod props;
